@@ -45,6 +45,11 @@ def contains(a, b):
 class SymSeq:
     __hash__ = None
 
+    def __getattr__(self, attr):
+        from .ctx import unknown_attr
+
+        return unknown_attr("builtins.list", attr, ("K", "element", "cut", "name", "val", "n", "is_input", "unit", "ns"))
+
     def __init__(self, K, element, cut=None, name="seq"):
         self.K, self.element, self.cut, self.name = K, element, cut, name
         self._memo = {}
@@ -79,6 +84,19 @@ class SymSeq:
     def __iter__(self):
         from .loops import cut_iterator
 
+        import sys as _sys
+
+        fr = _sys._getframe(1)
+        try:
+            import dis as _dis
+
+            op = _dis.opname[fr.f_code.co_code[fr.f_lasti]]
+        except Exception:  # noqa: BLE001
+            op = "?"
+        if op != "GET_ITER":
+            # consumed by something other than a `for` statement of the code (itertools.product, zip, sorted,
+            # a C-level consumer ...): a loop cut describes one pass of a for-loop body, nothing else
+            raise Unsupported("symbolic sequence %s is consumed by something other than a for statement (%s)" % (self.name, op))
         if self.cut is None:
             import sys
 
